@@ -57,7 +57,7 @@ def l_ord(x):
     if isinstance(x, lbytes._LBase):
         if len(x.s) != 1:
             raise TypeError("ord() expected a character, but string of length %d found" % len(x.s))
-        return ord(x.s)
+        return ord(x.s[0])
     return ord(x)
 
 
@@ -93,3 +93,208 @@ def lift_dns(extra=None):
 
 
 L = lift_dns()
+
+HS = 12     # Message.headerSize: compression offsets are relative to the start of the message
+
+
+def _enc_names(names, comp):
+    """encode Names one after the other behind a 12 byte header; -> (stream text, [start offsets])"""
+    io = L.BytesIO()
+    cd = None
+    if comp:
+        cd = {} if L.__real__ else lbytes.SymDict()
+    starts = []
+    for nm in names:
+        starts.append(io.tell() + HS)
+        L.Name(b(nm)).encode(io, cd)
+    return "\0" * HS + t(io.getvalue()), starts
+
+
+def _dec_names(stream, count):
+    io = L.BytesIO(b(stream))
+    io.seek(HS)
+    out = []
+    for _ in range(count):
+        n = L.Name()
+        n.decode(io)
+        out.append(t(n.name))
+    return out, io.tell()
+
+
+def name_rt(l1: str, l2: str, l3: str) -> bool:
+    """
+    pre: 1 <= len(l1) <= B['lab'] and len(l2) <= B['lab'] and len(l3) <= 1
+    pre: all(ord(c) < 256 and c != "." for c in l1 + l2 + l3)
+    post: _
+    """
+    name = l1 + ("." + l2 if len(l2) > 0 else "") + ("." + l3 if len(l3) > 0 else "")
+    stream, _ = _enc_names([name], False)
+    api.obs(stream)
+    cover()
+    if len(stream) != HS + len(name) + 2:
+        return False
+    out, end = _dec_names(stream, 1)
+    return out == [name] and end == len(stream)
+
+
+def names_comp(l1: str, l2: str, l3: str) -> bool:
+    """
+    pre: 1 <= len(l1) <= B['lab'] and 1 <= len(l2) <= B['lab'] and len(l3) == 1
+    pre: all(ord(c) < 256 and c != "." for c in l1 + l2 + l3)
+    post: _
+    """
+    names = [l1 + "." + l3 + ".tld", l2 + "." + l3 + ".tld", l3 + ".tld", l1 + "." + l3 + ".tld"]
+    stream, starts = _enc_names(names, True)
+    api.obs(stream)
+    cover()
+    plain = sum(len(n) + 2 for n in names)
+    if len(stream) - HS > plain:
+        return False
+    # the fourth name repeats the first: it must have become a single pointer to it
+    if stream[starts[3]:] != chr(0xC0) + chr(starts[0]):
+        return False
+    out, end = _dec_names(stream, 4)
+    return out == names and end == len(stream)
+
+
+
+MENU = ["ex.org", "www.ex.org", "EX.org", "org"]
+
+
+def _pick(i, menu):
+    for k in range(len(menu)):
+        if i == k:
+            return menu[k]
+    return menu[-1]
+
+
+def query_rt(ni: int, typ: int, cls: int) -> bool:
+    """
+    pre: 0 <= ni < 4 and 0 <= typ < 65536 and 0 <= cls < 65536
+    post: _
+    """
+    name = _pick(ni, MENU)
+    q = L.Query(b(name), typ, cls)
+    io = L.BytesIO()
+    q.encode(io, None)
+    enc = t(io.getvalue())
+    api.obs(enc)
+    cover()
+    q2 = L.Query()
+    io2 = L.BytesIO(b(enc))
+    q2.decode(io2)
+    return (t(q2.name.name) == name and q2.type == typ and q2.cls == cls and q2 == q
+            and io2.tell() == len(enc) == len(name) + 2 + 4)
+
+
+
+KINDS = ["A", "NS", "CNAME", "SOA", "MX", "TXT", "SRV", "AAAA"]
+_V6TAIL = "\x00\x01\x02\x03\x04\x05\x06\x07\x08\x09\x0a\x0b\xfe\xff"
+
+
+def _payload(kind, ttl, pi, x1, x2, x3, x4, x5, s1, s2):
+    """a Record_* of the given kind built from the symbolic fields (ttl = the header's ttl, because
+    that is what decoding gives the payload)"""
+    if kind == "A":
+        r = L.Record_A(ttl=ttl)
+        r.address = b((s1 + s2 + "\x7f\x00\x00\x01")[:4])
+        return r
+    if kind == "AAAA":
+        r = L.Record_AAAA(ttl=ttl)
+        r.address = b((s1 + "\x20\x01")[:2] + _V6TAIL)
+        return r
+    if kind == "NS":
+        return L.Record_NS(b(_pick(pi, MENU)), ttl)
+    if kind == "CNAME":
+        return L.Record_CNAME(b(_pick(pi, MENU)), ttl)
+    if kind == "SOA":
+        return L.Record_SOA(b(_pick(pi, MENU)), b(_pick(3 - pi, MENU)), x1, x2, x3, x4, x5, ttl)
+    if kind == "MX":
+        return L.Record_MX(x1, b(_pick(pi, MENU)), ttl)
+    if kind == "TXT":
+        return L.Record_TXT(b(s1), b(s2), ttl=ttl)
+    if kind == "SRV":
+        return L.Record_SRV(x1, x3, x5, b(_pick(pi, MENU)), ttl)
+    raise AssertionError(kind)
+
+
+def _same_payload(kind, p, q):
+    """field by field (texts compared exactly; names as bytes, not only case-insensitively)"""
+    if type(p) is not type(q) or p.ttl != q.ttl:
+        return False
+    if kind in ("A", "AAAA"):
+        return t(p.address) == t(q.address)
+    if kind in ("NS", "CNAME"):
+        return t(p.name.name) == t(q.name.name)
+    if kind == "SOA":
+        return (t(p.mname.name) == t(q.mname.name) and t(p.rname.name) == t(q.rname.name)
+                and p.serial == q.serial and p.refresh == q.refresh and p.retry == q.retry
+                and p.expire == q.expire and p.minimum == q.minimum)
+    if kind == "MX":
+        return p.preference == q.preference and t(p.name.name) == t(q.name.name)
+    if kind == "TXT":
+        return [t(d) for d in p.data] == [t(d) for d in q.data]
+    if kind == "SRV":
+        return (p.priority == q.priority and p.weight == q.weight and p.port == q.port
+                and t(p.target.name) == t(q.target.name))
+    return False
+
+
+def _same_rr(kind, h, g):
+    return (t(h.name.name) == t(g.name.name) and h.type == g.type and h.cls == g.cls and h.ttl == g.ttl
+            and _same_payload(kind, h.payload, g.payload) and h.payload == g.payload)
+
+
+_NOSTR = 'len(s1) == 0 and len(s2) == 0'
+_RR_SHARDS = [
+    ("ki == 0", "pi == 0 and len(s1) == 2 and len(s2) == 2"),                  # A: 4 symbolic address bytes
+    ("ki == 1", _NOSTR), ("ki == 2", _NOSTR), ("ki == 3", _NOSTR),             # NS, CNAME, SOA
+    ("ki == 4", _NOSTR + " and x1 < 65536"),                                   # MX
+    ("ki == 5", "pi == 0"),                                                    # TXT: two strings of 0..2 bytes
+    ("ki == 6", _NOSTR + " and x1 < 65536 and 0 <= x3 < 65536 and x5 < 65536"),  # SRV
+    ("ki == 7", "pi == 0 and len(s1) == 2 and len(s2) == 0"),                  # AAAA: 2 symbolic + 14 fixed bytes
+]
+
+
+def _kind_of(ki):
+    return _pick(ki, KINDS)
+
+
+def rr_rt(ki: int, ni: int, cls: int, ttl: int, pi: int, x1: int, x2: int, x3: int, x4: int, x5: int,
+          s1: str, s2: str, comp: bool) -> bool:
+    """
+    pre: 0 <= ki < 8 and 0 <= ni < 4 and 0 <= pi < 4 and 0 <= cls < 65536 and 0 <= ttl < 2 ** 32
+    pre: 0 <= x1 < 2 ** 32 and 0 <= x5 < 2 ** 32
+    pre: -2 ** 31 <= x2 < 2 ** 31 and -2 ** 31 <= x3 < 2 ** 31 and -2 ** 31 <= x4 < 2 ** 31
+    pre: len(s1) <= 2 and len(s2) <= 2 and all(ord(c) < 256 for c in s1 + s2)
+    post: _
+    """
+    kind = _kind_of(ki)
+    pay = _payload(kind, ttl, pi, x1, x2, x3, x4, x5, s1, s2)
+    h = L.RRHeader(b(_pick(ni, MENU)), pay.TYPE, cls, ttl, pay)
+    io = L.BytesIO()      # the body is encoded on its own, offsets are relative to the message start
+    cd = None
+    if comp:
+        cd = {}
+    h.encode(io, cd)
+    enc = "\0" * HS + t(io.getvalue())
+    api.obs(enc)
+    cover()
+    m = L.Message()
+    got = []
+    io2 = L.BytesIO(b(enc))
+    io2.seek(HS)
+    m.parseRecords(got, 1, io2)
+    if len(got) != 1 or io2.tell() != len(enc):
+        return False
+    g = got[0]
+    # rdlength is the real length of the rdata
+    return _same_rr(kind, h, g) and g.rdlength + HS + len(_pick(ni, MENU)) + 2 + 10 == len(enc)
+
+
+BOUNDS = {"quick": {"lab": 2}, "thorough": {"lab": 3}}
+B = {}
+HARNESSES = [H(name_rt, shards=[("len(l1) == 2", "len(l2) == 2", "len(l3) == 1")]),
+             H(query_rt),
+             H(rr_rt, shards=_RR_SHARDS, timeout={"quick": 90, "thorough": 900}),
+             H(names_comp, shards=[("len(l1) == 2", "len(l2) == 2"), ("len(l1) == 1", "len(l2) == 2")])]
